@@ -278,6 +278,22 @@ func init() {
 						enumBodies(w, al, maxL, func(body string) { w.Item(body, aux) })
 					})
 				}, Eval: evalC18Quoted},
+			{Name: "clip-boundary-bodies", Space: "25 openers x bodies of 26..36 bytes whose last bytes before the 31-byte value clip are each of {a, 2-byte rune, 3-byte rune, 4-byte rune, lone 0xE9, backslash + a} at every alignment x 2 tails: the reported content is exactly the first 31 bytes", Share: 1,
+				Run: func(w *fw.W) {
+					type it struct{ body, aux string }
+					var items []it
+					for _, op := range ops {
+						for _, tl := range c18Tails {
+							aux := op.name + "|" + tl
+							for pad := 24; pad <= 33; pad++ {
+								for _, mid := range []string{"a", "\u00e9", "\u65e5", "\U0001f600", "\xe9", "\\a", "\u00e9\u00e9", "\u65e5\u65e5"} {
+									items = append(items, it{strings.Repeat("a", pad) + mid + "aaaa", aux}, it{strings.Repeat("a", pad) + mid + "aaaa" + string([]byte{op.delim}), aux})
+								}
+							}
+						}
+					}
+					w.Each(len(items), func(i int) { w.Item(items[i].body, items[i].aux) })
+				}, Eval: evalC18Quoted},
 			{Name: "q-strings", Space: "223 delimiter bytes x {b, close(b), ', a}^<=5 x {q' Q' nq' Nq' NQ' nQ'}", Share: 2,
 				Run: func(w *fw.W) {
 					pre := []string{"q'", "Q'", "nq'", "Nq'", "NQ'", "nQ'"}
